@@ -1,1 +1,3 @@
 import Pathrs.Proofs.Props.C05
+import Pathrs.Proofs.Props.C16
+import Pathrs.Proofs.Props.C17
